@@ -126,6 +126,29 @@ CHECKS = {
         note="The Owns / Doc tables are a transcription of README.md and the setters' docstrings; a disagreement may be a "
              "transcription error and is examined before it is reported. 'required' fat / protein call sys.exit by design.",
     ),
+    "C14": dict(
+        technique="TLA+ spec Process.tla: TLC enumerates run histories (and refutes the variant with a read before SetGlobals); each "
+                  "history is executed in one process and every run compared bitwise with the same run alone",
+        text="Process.tla models the process-global settings, SetGlobals / Compute / Fail per run and the invariant that a run's "
+             "result depends only on the run. TLC checks it for all histories up to length 3 over five distinguishable run types "
+             "(one failing), shows the property is not vacuous by refuting the model variant in which a read precedes the run's own "
+             "SetGlobals, and emits the histories. Each is executed for real in one fresh process (quick: all 25 ordered pairs + "
+             "singles; thorough: all 125 triples) and each run's complete observation (headline, every monthly series, LP values, "
+             "herd trajectories, hand-offs, validator outcomes) must be bit-for-bit the observation of the run alone.",
+        design_ref="5 (C14), Process.tla",
+        note="Bounded history length and five run types; equality is on the JSON of every recorded float.",
+    ),
+    "C15": dict(
+        technique="TLA+ spec Process.tla (Aggregate part): TLC enumerates selection lists x ratio assignments with their expected "
+                  "aggregate; each replayed through the real run_model_no_trade with the per-country optimiser stubbed",
+        text="Selected(list) and the capped population-weighted mean are defined in Process.tla over a 4-country universe; TLC checks "
+             "0 <= fed <= total for every case and emits every selection list of length <= 2 over {x, !x} (73 lists) x 8 (thorough: "
+             "256) ratio assignments over {0, 1/2, 1, 3/2} with the expected selection, fed and total. Each case runs through the real "
+             "run_model_no_trade: the countries actually run, the result keys, net_pop and net_pop_fed must equal the expectation.",
+        design_ref="5 (C15), Process.tla",
+        note="run_optimizer_for_country is stubbed by the harness and the table restricted to four real rows; mixed lists run "
+             "exactly the plain entries.",
+    ),
     "C16": dict(
         technique="TLA+ spec Rounds.tla: trace acceptance (LegalOrder, SolverOptimal, ValidatorsPass, Completed, "
                   "PercentFedFiniteNonNeg) of every run of the preset grid",
